@@ -32,7 +32,15 @@ def c01(frames, tokens):
             probs.append(("token-shape", {"token_index": k, "token": repr(tok)[:200]}))
             continue
         data, start, end = tok
-        if not (isinstance(start, int) and isinstance(end, int)) or isinstance(start, bool):
+        try:
+            # any integer type is a position (a tokenizer fed numpy parameters may well answer in numpy integers); what the
+            # statement fixes is the VALUE.  Floats, even integral ones, are not positions.
+            import operator
+
+            if isinstance(start, bool) or isinstance(end, bool):
+                raise TypeError
+            start, end = operator.index(start), operator.index(end)
+        except TypeError:
             probs.append(("index-not-int", {"token_index": k, "start": repr(start), "end": repr(end)}))
             continue
         if not (0 <= start <= end < n):
